@@ -269,6 +269,11 @@ def normalize_url(
         if platform_aware:
             canonical_url = canonicalize_url(url)
 
+            # NOTE: letters hidden in escapes (e.g. "/%43hannel/") only show
+            # once unquoted
+            if lowercase:
+                canonical_url = upper_quoted(canonical_url.lower())
+
             if is_facebook_url(canonical_url):
                 p = parse_facebook_url(canonical_url)
 
